@@ -72,6 +72,8 @@ type PackOpts struct {
 	NoEmptyTrack bool
 	AudioOnly    bool
 	BigSamples   bool
+	Styp         int // 0: seeded per segment, 1: every segment, 2: never
+	MinSegs      int
 }
 
 var avcSPS, avcPPS [][]byte
@@ -217,10 +219,19 @@ func Package(r *sim.Run, o PackOpts) (*Production, error) {
 		nextDts[i] = uint64(t.Draw(3)) * 100000
 	}
 	nSegs := 1 + t.Draw(o.MaxSegs)
+	if nSegs < o.MinSegs {
+		nSegs = o.MinSegs
+	}
 	seq := uint32(1 + t.Draw(5))
 	r.Logf("packager: tracks=%d segs=%d", nTracks, nSegs)
 	for si := 0; si < nSegs; si++ {
 		sr := &SegRec{HasStyp: !t.Chance(250), Optimize: t.Bool(), ViaSW: t.Bool()}
+		switch o.Styp {
+		case 1:
+			sr.HasStyp = true
+		case 2:
+			sr.HasStyp = false
+		}
 		var seg *mp4.MediaSegment
 		if sr.HasStyp {
 			seg = mp4.NewMediaSegment()
